@@ -93,11 +93,15 @@ fn check_snapshot<D: Distance>(
     Ok((v, answers))
 }
 
-fn reader_loop<D: Distance>(world: &World, index: u16, metric: Metric, dims: usize, sh: &Shared, seed: u64) -> ReaderStats {
+fn reader_loop<D: Distance>(world: &World, index: u16, metric: Metric, dims: usize, sh: &Shared, seed: u64, light: bool) -> ReaderStats {
     let mut rng = StdRng::seed_from_u64(seed);
     let mut st = ReaderStats { c: Counters::default(), sigs: BTreeSet::new() };
     while !sh.stop.load(Ordering::SeqCst) {
         nap(&mut rng);
+        if light {
+            // leave long gaps without any read transaction so that LMDB recycles freed pages
+            std::thread::sleep(std::time::Duration::from_micros(rng.gen_range(200..3000)));
+        }
         let c0 = sh.committed.load(Ordering::SeqCst);
         let phase = sh.phase.load(Ordering::SeqCst);
         let rtxn = match world.env.read_txn() {
@@ -125,7 +129,7 @@ fn reader_loop<D: Distance>(world: &World, index: u16, metric: Metric, dims: usi
         st.c.inc(&format!("snapshots_writer_phase_{}", ["idle", "adding", "building", "committing", "aborting"][phase as usize]));
         st.sigs.insert(mix(v << 8 | phase));
         // hold the snapshot across later commits
-        if rng.gen_bool(0.3) {
+        if !light && rng.gen_bool(0.3) {
             let t0 = std::time::Instant::now();
             while sh.committed.load(Ordering::SeqCst) <= c1 && !sh.stop.load(Ordering::SeqCst) && t0.elapsed().as_millis() < 400 {
                 std::thread::sleep(std::time::Duration::from_micros(500));
@@ -156,7 +160,7 @@ fn reader_loop<D: Distance>(world: &World, index: u16, metric: Metric, dims: usi
     st
 }
 
-fn writer_loop<D: Distance>(world: &World, index: u16, metric: Metric, dims: usize, sh: &Shared, seed: u64, versions: u64, c: &mut Counters) {
+fn writer_loop<D: Distance>(world: &World, index: u16, metric: Metric, dims: usize, sh: &Shared, seed: u64, versions: u64, steady: bool, c: &mut Counters) {
     let mut rng = StdRng::seed_from_u64(seed ^ 0xABCD);
     let mut committed_model: Items = sh.models.lock().unwrap().get(&0).cloned().unwrap();
     let mut v = 0u64;
@@ -181,7 +185,27 @@ fn writer_loop<D: Distance>(world: &World, index: u16, metric: Metric, dims: usi
             fresh = Writer::<D>::new(adb::<D>(world.db), index, dims);
             &fresh
         };
-        let n_ops = rng.gen_range(1..30);
+        // "swap" versions keep the number of items (and hence the size of every serialized id set)
+        // constant while changing its content: freed pages get recycled with same-shaped data
+        let swap_version = (steady || rng.gen_bool(0.4)) && model.len() > 3;
+        if swap_version {
+            for _ in 0..rng.gen_range(1..4) {
+                let victim = *model.keys().filter(|k| **k != SENTINEL).nth(rng.gen_range(0..model.len() - 1)).unwrap();
+                let _ = w.del_item(&mut wtxn, victim);
+                model.remove(&victim);
+                let fresh_id = loop {
+                    let id = rng.gen_range(0..400u32);
+                    if !model.contains_key(&id) {
+                        break id;
+                    }
+                };
+                let vec: Vec<f32> = (0..dims).map(|_| rng.gen_range(-1.0f32..1.0)).collect();
+                w.add_item(&mut wtxn, fresh_id, &vec).unwrap();
+                model.insert(fresh_id, vec);
+            }
+            c.inc("swap_versions");
+        }
+        let n_ops = if swap_version { 0 } else { rng.gen_range(1..30) };
         for _ in 0..n_ops {
             let id = rng.gen_range(0..120u32);
             if rng.gen_bool(0.3) {
@@ -202,13 +226,14 @@ fn writer_loop<D: Distance>(world: &World, index: u16, metric: Metric, dims: usi
         nap(&mut rng);
         sh.phase.store(2, Ordering::SeqCst);
         let opts = BuildOpts {
-            n_trees: Some(rng.gen_range(1..5)),
-            split_after: Some(rng.gen_range(2..10)),
+            // steady cases keep the shape of everything constant from version to version
+            n_trees: Some(if steady { 2 } else { rng.gen_range(1..5) }),
+            split_after: Some(if steady { 60 } else { rng.gen_range(2..10) }),
             memory: None,
             threads: [1usize, 2, 4][rng.gen_range(0..3)],
             rng_seed: rng.gen(),
         };
-        let fate = rng.gen_range(0..10);
+        let fate = if steady { 5 } else { rng.gen_range(0..10) };
         let cancel_at = if fate == 0 { Some(rng.gen_range(0..400)) } else { None };
         #[cfg(arroy_verif)]
         arroy::verif::chaos_arm(opts.rng_seed | 1, 25);
@@ -282,15 +307,19 @@ fn run_case<D: Distance>(cs: u64, metric: Metric, dims: usize, index: u16, n_rea
         failure: Mutex::new(None),
     };
     let mut wc = Counters::default();
+    // a third of the cases: a single reader that never holds its snapshot (page recycling)
+    let light = cs % 3 == 0;
+    let n_readers = if light { 1 } else { n_readers };
+    wc.inc(if light { "cases_light_readers" } else { "cases_holding_readers" });
     let stats: Vec<ReaderStats> = std::thread::scope(|s| {
         let hs: Vec<_> = (0..n_readers)
             .map(|r| {
                 let sh = &sh;
                 let world = &world;
-                s.spawn(move || reader_loop::<D>(world, index, metric, dims, sh, mix(cs ^ r as u64)))
+                s.spawn(move || reader_loop::<D>(world, index, metric, dims, sh, mix(cs ^ r as u64), light))
             })
             .collect();
-        writer_loop::<D>(&world, index, metric, dims, &sh, cs, versions, &mut wc);
+        writer_loop::<D>(&world, index, metric, dims, &sh, cs, versions, light, &mut wc);
         // let the readers look at the final state for a moment
         std::thread::sleep(std::time::Duration::from_millis(5));
         sh.stop.store(true, Ordering::SeqCst);
@@ -355,7 +384,7 @@ pub fn run(args: &Args) {
         .set("sigs", J::Arr(sigs.iter().map(|s| J::s(format!("{s:x}"))).collect()))
         .set("samples", J::Arr(samples))
         .set("rule", J::s("case = one environment, one writer thread producing versions (1-30 updates + sentinel + build in a local rayon pool of 1-4 threads with seeded noise at hook points, then commit; or abort after a successful or cancelled build) and 2-6 reader threads opening snapshots at random moments; each snapshot is identified by its sentinel, must lie between the last commit that returned before the open and the last commit started, and is compared as a whole with that version's model (ids, vectors, C01 walker on a raw dump through the same read txn, exact queries), again after holding it across later commits; non-trivial+distinct = distinct (version observed, writer phase at open) pairs"))
-        .set("required", J::Arr(["snapshots", "snapshots_writer_phase_building", "snapshots_writer_phase_committing", "snapshots_held_across_commits", "versions_committed", "aborts_after_successful_build", "aborts_after_cancelled_build", "abort_dumps_compared"].iter().map(|s| J::s(*s)).collect()))
+        .set("required", J::Arr(["snapshots", "snapshots_writer_phase_building", "snapshots_writer_phase_committing", "snapshots_held_across_commits", "swap_versions", "cases_light_readers", "versions_committed", "aborts_after_successful_build", "aborts_after_cancelled_build", "abort_dumps_compared"].iter().map(|s| J::s(*s)).collect()))
         .set("wall_s", J::Num(t0.elapsed().as_secs_f64()));
     emit("SUMMARY", &j);
 }
